@@ -251,7 +251,7 @@ impl Check for MatchCheck {
     }
     fn budget(&self, tier: Tier) -> u64 {
         match tier {
-            Tier::Quick => 10_000,
+            Tier::Quick => 40_000,
             Tier::Thorough => 250_000,
         }
     }
@@ -638,7 +638,7 @@ impl Check for FireCheck {
     }
     fn budget(&self, tier: Tier) -> u64 {
         match tier {
-            Tier::Quick => 12_000,
+            Tier::Quick => 40_000,
             Tier::Thorough => 300_000,
         }
     }
